@@ -185,6 +185,7 @@ pub fn run_convert(v: &Value, idx: usize, out: &mut dyn Write) -> usize {
         }
         other => panic!("unknown convert op {}", other),
     })
+    .map(|v| json!({"k": "ok", "v": v}))
     .unwrap_or_else(|p| panic_value(&p));
     writeln!(out, "{}", json!({"fam": "convert", "sid": sid, "op": op, "args": a, "r": r})).unwrap();
     1
